@@ -12,7 +12,7 @@ ANCHORS = ["pyoma2.functions.plscf:pLSCF", "pyoma2.functions.plscf:rmfd2ac", "py
 REQUIRED_MONITORS = ["history: other sign then again", "history: poles extracted twice", "coefficients@pLSCF", "poles-at-order-n@pLSCF_poles", "roots@rmfd2ac(every call)", "columns@pLSCF_poles(every call)",
                      "roots@rmfd2ac(inside pLSCF.run)", "columns@pLSCF_poles(inside pLSCF.run)"]
 ALL_STATES = ["sgn=-1", "sgn=+1", "ordmax=n", "ordmax>n", "some roots unstable", "all roots stable", "Nref<Nch", "Nref>Nch", "Nref=Nch", "n=1", "n>=6"]
-REQUIRED_STATES = ["sgn=-1", "sgn=+1", "ordmax=n", "ordmax>n", "some roots unstable", "Nref<Nch", "Nref>Nch", "n=1", "spectrum magnitude < 1e-5"]
+REQUIRED_STATES = ["sgn=-1", "sgn=+1", "ordmax=n", "ordmax>n", "some roots unstable", "Nref<Nch", "Nref>Nch", "n=1", "spectrum magnitude < 1e-5", "all roots real, some negative"]
 RULE = ("random real polynomial matrices A (Nch x Nch) and B (Nref x Nch) of order n in 1..8 (leading/trailing coefficients diagonally dominated), "
         "2..5 channels, 1..5 reference rows, Nf >= 4(n+1) lines, dt over three decades, both basis signs, ordmax in {n,n+1,n+2}; Sy = B A^-1 on the "
         "library's grid; oracle: Ad[n-1] equals the normalised true coefficients, column n-1 of the pole tables equals the stable roots of det A "
@@ -148,6 +148,15 @@ def run_rational(ctx, rng):
     alpha = rng.standard_normal((n + 1, Nch, Nch)) * 0.5
     alpha[0] += 2 * np.eye(Nch)
     alpha[n] += 2 * np.eye(Nch)
+    if rng.random() < 0.15:
+        # every root of det A(z) real (over-damped / first-order dynamics), about half of them negative: A = T diag(p_i) T^-1
+        T = rng.standard_normal((Nch, Nch)) + 2 * np.eye(Nch)
+        Ti = np.linalg.inv(T)
+        R = rng.uniform(0.2, 0.95, (Nch, n)) * rng.choice([-1, 1], (Nch, n))
+        co = [np.poly(R[i])[::-1] for i in range(Nch)]
+        alpha = np.array([T @ np.diag([co[i][j] for i in range(Nch)]) @ Ti for j in range(n + 1)])
+        if (R < 0).any():
+            ctx.state("all roots real, some negative")
     beta = rng.standard_normal((n + 1, Nref, Nch))
     if rng.random() < 0.4:
         mag = float(10 ** rng.uniform(-9, 3))
